@@ -14,7 +14,12 @@ RULE = ('1-3 transforms (Transform2D / Transform3D, constructed with explicit or
         'rotations are multiples of 1/8 in [-1000, 1000] (int or float; 70 % outside [0, 360)), for '
         'which binary64 % is exact; after every operation all properties of all transforms are '
         'read back; 25 % of the assignments repeat the current value (2D rotation: plus or minus '
-        'full turns); each callback records listener, event, argument and whether the argument '
+        'full turns), 35 % of the 2D rotations are boundary values (multiples of 360 and one '
+        'eighth on either side, also as constructor arguments); 40 % of the later transforms are '
+        'constructed from the very argument objects of an earlier one; object identity is '
+        'observed with `is` only: constructor-stored vectors must be new objects (not the '
+        'argument, not shared between instances or with the defaults), an assigned vector must '
+        'be read back as the object it is; each callback records listener, event, argument and whether the argument '
         'equals (value and type) what a read of the property returns both from inside the callback '
         'and right after the assignment; '
         'non-trivial = at least three assignments with at least two callbacks')
@@ -57,6 +62,9 @@ def gen(rng, tier):
                 return v
             if not d and p == 1:
                 r = rng.random()
+                if rng.random() < 0.35:
+                    # boundaries: multiples of 360, and one eighth on either side
+                    return [2880 * rng.choice([-2, -1, 0, 0, 1, 1, 1, 2, 3]) + rng.choice([-1, 0, 0, 1])]
                 if r < 0.3:
                     k = rng.randint(0, 2879)
                 elif r < 0.65:
@@ -71,11 +79,18 @@ def gen(rng, tier):
         def new(t):
             d = rng.random() < 0.4
             dims[t] = d
-            args = [vec(d, p) if rng.random() < 0.6 else None for p in range(3)]
+            args = [vec(d, p) if rng.random() < 0.55 else None for p in range(3)]
+            if len(dims) > 1 and rng.random() < 0.4:
+                # the same argument values (hence, through the harness cache, the same argument
+                # objects) as an earlier transform of the same kind
+                for o0 in ops:
+                    if o0[0] == 'new' and o0[2] == d:
+                        args = list(o0[3:6])
+                        break
             for p in range(3):
                 if args[p] is not None:
                     last[(t, p)] = args[p]
-            ops.append(['new', t, d] + args)
+            ops.append(['new', t, d] + args + [[rng.choice(['tuple', 'vec', 'vec', 'list']) for _ in range(3)]])
             for _ in range(rng.randint(0, 3)):
                 ops.append(['listen', t, rng.randint(1, nl)])
         new(1)
@@ -138,26 +153,45 @@ def run(case):
     out = []
     current = []                      # the transform being assigned
 
-    def mk(d, p, v, kind='tuple'):
+    cache = {}
+
+    def mk(d, p, v, kind='tuple', reuse=False):
         if not d and p == 1:
             return v[0] // 8 if v[0] % 8 == 0 and kind != 'vec' else v[0] / 8
+        key = (d, kind, tuple(v))
+        if reuse and key in cache:
+            return cache[key]         # the very same argument object as before
         xs = [c / 8 for c in v]
         if kind == 'vec':
-            return (dmath.Vec3 if d else dmath.Vec2)(*xs)
-        return tuple(xs) if kind == 'tuple' else list(xs)
+            r = (dmath.Vec3 if d else dmath.Vec2)(*xs)
+        else:
+            r = tuple(xs) if kind == 'tuple' else list(xs)
+        cache[key] = r
+        return r
+
+    def vectors(t):
+        d3 = isinstance(ts[t], desper.Transform3D)
+        return [getattr(ts[t], PROPS[p]) for p in range(3) if d3 or p != 1]
     for o in case['ops']:
         del calls[:]
         rec = []
         err = None
+        ident = True
         try:
             if o[0] == 'new':
                 t, d = o[1], o[2]
                 kw = {}
+                kinds = o[6] if len(o) > 6 else ['tuple'] * 3
                 for p in range(3):
                     if o[3 + p] is not None:
-                        kw[PROPS[p]] = mk(d, p, o[3 + p])
+                        kw[PROPS[p]] = mk(d, p, o[3 + p], kinds[p], reuse=True)
+                others = [x for u in order for x in vectors(u)]
                 ts[t] = (desper.Transform3D if d else desper.Transform2D)(**kw)
                 order.append(t)
+                mine = vectors(t)
+                # identity only (never == or truthiness): new objects, shared with nobody
+                ident = (not any(a is b_ for a in mine for b_ in list(kw.values()) + others)
+                         and not any(mine[i] is mine[j] for i in range(len(mine)) for j in range(i)))
             elif o[0] == 'listen':
                 if case['masks'][o[2] - 1] != [False] * 3:
                     ts[o[1]].add_handler(listeners[o[2] - 1])
@@ -168,11 +202,14 @@ def run(case):
                 t, p = o[1], o[2]
                 d = isinstance(ts[t], desper.Transform3D)
                 current.append(ts[t])
+                assigned = mk(d, p, o[3], o[4])
                 try:
-                    setattr(ts[t], PROPS[p], mk(d, p, o[3], o[4]))
+                    setattr(ts[t], PROPS[p], assigned)
                 finally:
                     del current[:]
                 back = getattr(ts[t], PROPS[p])
+                if d or p != 1:
+                    ident = back is assigned
                 for (lid, j, args, kwargs, inside) in calls:
                     if len(args) == 1 and not kwargs:
                         a = args[0]
@@ -194,7 +231,7 @@ def run(case):
                 snap.append([t, [[BADNUM]] * 3])
         if err:
             snap = [[-1, [[BADNUM]] * 3]]
-        out.append({'calls': rec, 'snap': snap})
+        out.append({'calls': rec, 'snap': snap, 'id': bool(ident)})
     return {'obs': out}
 
 
@@ -220,14 +257,14 @@ def enc_obs(ob):
     calls = lst(['{| k_l := %s; k_p := %s; k_v := %s; k_same := %s |}' % (
         z(c[0]), PNAMES[c[1]], zl(c[2]), b(c[3])) for c in ob['calls']])
     snap = lst(['(%s, (%s, %s, %s))' % (z(t), zl(x[0]), zl(x[1]), zl(x[2])) for t, x in ob['snap']])
-    return '{| o_calls := %s; o_snap := %s |}' % (calls, snap)
+    return '{| o_calls := %s; o_snap := %s; o_id := %s |}' % (calls, snap, b(ob.get('id', True)))
 
 
 def encode(case, trace):
     masks = lst(['(%s, (%s, %s, %s))' % (z(i + 1), b(m[0]), b(m[1]), b(m[2]))
                  for i, m in enumerate(case['masks'])])
     if 'obs' not in trace:
-        items = ['(%s, {| o_calls := []; o_snap := [(-1, ([], [], []))] |})' % enc_op(o)
+        items = ['(%s, {| o_calls := []; o_snap := [(-1, ([], [], []))]; o_id := true |})' % enc_op(o)
                  for o in case['ops']]
     else:
         items = ['(%s, %s)' % (enc_op(o), enc_obs(ob)) for o, ob in zip(case['ops'], trace['obs'])]
